@@ -274,7 +274,6 @@ func caseTerm(c *jcase) string {
 const (
 	sigDrift    = "size-overreport-after-dedup"
 	sigSnapType = "type-conflict-vs-snapshot-accepted"
-	sigMixed    = "mixed-types-into-empty-entry"
 )
 
 func shapeSig(ops []jop) string {
@@ -325,27 +324,6 @@ func shapeSig(ops []jop) string {
 				}
 			}
 			hist[kv.Key] = append(hist[kv.Key], occ{ts, snaps})
-		}
-	}
-	// C: an empty write to a key followed by a mixed-type batch for it
-	empty := map[string]bool{}
-	for i := range ops {
-		if ops[i].Op != "write" {
-			continue
-		}
-		for _, kv := range ops[i].Batch {
-			ts := map[string]bool{}
-			for _, p := range kv.Pts {
-				ts[p.T] = true
-			}
-			if len(ts) > 1 && empty[kv.Key] {
-				return sigMixed
-			}
-		}
-		for _, kv := range ops[i].Batch {
-			if len(kv.Pts) == 0 {
-				empty[kv.Key] = true
-			}
 		}
 	}
 	return ""
@@ -447,6 +425,11 @@ func (s *mstate) step(o *jop) (r jresp) {
 					continue
 				}
 				if len(e.vals) == 0 {
+					if !allType(kv.Pts[0].T, kv.Pts) {
+						werr = true
+						s.size -= valsSize(kv.Pts)
+						continue
+					}
 					e.vals, e.vtype = append([]jpoint(nil), kv.Pts...), kv.Pts[0].T
 				} else {
 					e.vals = append(e.vals, kv.Pts...)
@@ -1002,9 +985,7 @@ func (g *gen) concCase() (uint64, []jop, [][]jop) {
 	g.unique = true
 	defer func() { g.unique = false }()
 	max := []uint64{0, 0, 100000, 5}[r.IntN(4)] // unlimited, never binding, or rejecting every write
-	// the first op initialises the lazily allocated store (Cache.init) before any concurrency:
-	// concurrent FIRST operations on a fresh cache are a genuine race (finding init-race, see probes())
-	prefix := []jop{{Op: "delete", Keys: []string{"zz"}}}
+	var prefix []jop                            // may be empty: the concurrent ops are then the FIRST ops on a fresh cache (lazy Cache.init)
 	snapshotting := false
 	for i, n := 0, r.IntN(4); i < n; i++ {
 		prefix = append(prefix, g.write(2))
@@ -1082,7 +1063,7 @@ func handPicked() []*jcase {
 		mk(0, W(KV("a", f1, f2, f3)), jop{Op: "delrange", Keys: []string{"a"}, Min: 5, Max: 5}),
 		// type conflict against a snapshot-only key is accepted (finding B), then hot conflict rejected for that key only
 		mk(0, W(KV("a", f1)), jop{Op: "snapshot"}, W(KV("a", i2)), jop{Op: "values", Key: "a"}, W(KV("a", f3), KV("bb", i7))),
-		// empty write creates the key (+len), mixed batch accepted into the empty entry (finding C), rejected for a new key
+		// empty write creates the key (+len), mixed batch rejected for the empty entry and for a new key
 		mk(0, W(KV("bb")), jop{Op: "size"}, jop{Op: "keys"}, W(KV("bb", f3, i7)), W(KV("ccc", f3, i7))),
 		// limit: 17 fits in 30, the second write is rejected atomically although its other key would fit alone
 		mk(30, W(KV("a", f3)), W(KV("a", f1), KV("bb", i2)), W(KV("bb", P(1, "b", "true")))),
@@ -1102,7 +1083,7 @@ func handPicked() []*jcase {
 // ---------- probes for the confirmed CONCURRENCY defects (nondeterministic; known findings) ----------
 
 const (
-	sigInitRace  = "init-race-loses-first-concurrent-writes"
+	sigInitRace  = "" // repaired (Cache.init installs the ring before publishing the flag): a regression is a VIOLATION
 	sigWriteDel  = "write-delete-race-leaks-size"
 	sigLimitRace = "limit-check-not-atomic"
 )
@@ -1266,7 +1247,7 @@ func main() {
 		execs = 3000
 	}
 	for _, threads := range stressPrograms(g) {
-		doConc(w, 0, []jop{{Op: "delete", Keys: []string{"zz"}}}, threads, true, execs)
+		doConc(w, 0, nil, threads, true, execs)
 	}
 	for i := 0; w.Len() < w.N; i++ {
 		if i%4 == 3 {
